@@ -1,0 +1,5 @@
+//go:build !verif
+
+package desync
+
+func verifMountHandle(ev string, off int64, n int) {}
